@@ -12,8 +12,10 @@ import (
 	"errors"
 	"fmt"
 	"io"
+	"math/rand"
 	"os"
 	"path/filepath"
+	"strconv"
 	"strings"
 	"sync"
 	"testing"
@@ -241,6 +243,190 @@ func TestVerifC14Handler(t *testing.T) {
 		m.close()
 	}
 	if err := os.WriteFile(filepath.Join(outDir, "handler.out"), []byte(strings.Join(lines, "\n")+"\n"), 0o644); err != nil {
+		t.Fatal(err)
+	}
+}
+
+// ---- deepening round 2: GENERATED calls of the real handlePrivateTxRetry, compared with NutsModel.C14.Receivers.privateRetry ----
+// errors travel as their Unwrap chain, outermost first (Layer in Receivers.lean)
+
+type c14DynResolver struct{ err *error }
+
+func (r c14DynResolver) Resolve(id did.DID, _ *resolver.ResolveMetadata) (*did.Document, *resolver.DocumentMetadata, error) {
+	if *r.err != nil {
+		return nil, nil, *r.err
+	}
+	return &did.Document{ID: id}, &resolver.DocumentMetadata{}, nil // no key agreement keys: the PAL is not for this node
+}
+
+func c14Build(chain []string) error {
+	var err error
+	for i := len(chain) - 1; i >= 0; i-- {
+		switch chain[i] {
+		case "msg":
+			if err == nil {
+				err = errors.New("c14 leaf")
+			} else {
+				err = fmt.Errorf("c14 wrap %d: %w", i, err)
+			}
+		case "canceled":
+			err = context.Canceled
+		case "deadline":
+			err = context.DeadlineExceeded
+		case "db":
+			err = stoabs.DatabaseError(err)
+		case "fatal":
+			err = dag.EventFatal{Err: err}
+		}
+	}
+	return err
+}
+
+func c14Chain(err error) []string {
+	var l []string
+	for err != nil {
+		switch err.(type) {
+		case stoabs.ErrDatabase:
+			l = append(l, "db")
+		case dag.EventFatal:
+			l = append(l, "fatal")
+		default:
+			switch err {
+			case context.Canceled:
+				l = append(l, "canceled")
+			case context.DeadlineExceeded:
+				l = append(l, "deadline")
+			default:
+				l = append(l, "msg")
+			}
+		}
+		err = errors.Unwrap(err)
+	}
+	return l
+}
+
+func c14GenChain(rng *rand.Rand) []string {
+	wrappers := []string{"msg", "msg", "db", "fatal"}
+	leaves := []string{"msg", "msg", "canceled", "deadline", "db"}
+	var c []string
+	db := false
+	for i, n := 0, rng.Intn(4); i < n; i++ {
+		w := wrappers[rng.Intn(len(wrappers))]
+		if w == "fatal" && rng.Intn(3) != 0 {
+			w = "msg"
+		}
+		if w == "db" {
+			if db {
+				w = "msg"
+			}
+			db = true
+		}
+		c = append(c, w)
+	}
+	lf := leaves[rng.Intn(len(leaves))]
+	if lf == "db" && db {
+		lf = "msg"
+	}
+	return append(c, lf)
+}
+
+func TestVerifC14PrivateRetry(t *testing.T) {
+	outDir := os.Getenv("VERIF_OUT")
+	if outDir == "" {
+		t.Skip("VERIF_OUT not set")
+	}
+	logrus.StandardLogger().SetOutput(io.Discard)
+	seed, _ := strconv.ParseInt(os.Getenv("VERIF_SEED"), 10, 64)
+	rng := rand.New(rand.NewSource(seed*104729 + 14))
+	n := 80
+	if os.Getenv("VERIF_TIER") == "thorough" {
+		n = 600
+	}
+	dir := filepath.Join(outDir, "db-private")
+	_ = os.MkdirAll(dir, 0o755)
+	defer os.RemoveAll(dir)
+	ctx := context.Background()
+	open := func(name string) (stoabs.KVStore, dag.State) {
+		db, err := bbolt.CreateBBoltStore(filepath.Join(dir, name), stoabs.WithNoSync())
+		if err != nil {
+			t.Fatal(err)
+		}
+		st, err := dag.NewState(db)
+		if err != nil {
+			t.Fatal(err)
+		}
+		return db, st
+	}
+	db, state := open("p.db")
+	root := dag.CreateSignedTestTransaction(1, time.Now(), nil, "application/did+json", true)
+	privHave := dag.CreateSignedTestTransaction(2, time.Now(), [][]byte{{1, 2, 3}}, "application/vc+json", true, root)
+	privMiss := dag.CreateSignedTestTransaction(3, time.Now(), [][]byte{{1, 2, 3}}, "application/vc+json", true, root)
+	_ = state.Add(ctx, root, []byte{0, 0, 0, 1})
+	if err := state.Add(ctx, privHave, []byte{0, 0, 0, 2}); err != nil {
+		t.Fatal(err)
+	}
+	if err := state.Add(ctx, privMiss, nil); err != nil {
+		t.Fatal(err)
+	}
+	var resolveErr error
+	p := New(DefaultConfig(), did.MustParseDID("did:nuts:c14node"), state, c14DynResolver{&resolveErr}, nil, nil, db).(*protocol)
+	// a second node whose store has gone away: IsPayloadPresent itself fails
+	db2, state2 := open("closed.db")
+	_ = state2.Add(ctx, root, []byte{0, 0, 0, 1})
+	p2 := New(DefaultConfig(), did.MustParseDID("did:nuts:c14node"), state2, c14DynResolver{&resolveErr}, nil, nil, db2).(*protocol)
+	_ = db2.Close(ctx)
+	_, perr := state2.IsPayloadPresent(ctx, privMiss.PayloadHash())
+
+	var ops, lines []string
+	emit := func(op map[string]interface{}, done bool, err error) {
+		b, _ := json.Marshal(op)
+		ops = append(ops, string(b))
+		class := "done"
+		switch {
+		case err != nil && errors.As(err, new(dag.EventFatal)):
+			class = "fatal"
+		case err != nil:
+			class = "fail"
+		case !done:
+			class = "notDone"
+		}
+		e := "-"
+		if err != nil {
+			e = strings.Join(c14Chain(err), ">")
+		}
+		lines = append(lines, fmt.Sprintf("recv|done=%v|err=%s|class=%s", done, e, class))
+	}
+	for i := 0; i < n; i++ {
+		present := rng.Intn(4) == 0
+		var chain []string
+		if rng.Intn(5) != 0 {
+			chain = c14GenChain(rng)
+		}
+		resolveErr = c14Build(chain)
+		tx := privMiss
+		if present {
+			tx = privHave
+		}
+		ev := dag.Event{Type: dag.TransactionEventType, Hash: tx.Ref(), Transaction: tx}
+		op := map[string]interface{}{"op": "rpriv", "present": present, "palNil": true}
+		if chain != nil {
+			op["derr"] = chain
+		}
+		if perr != nil && rng.Intn(8) == 0 {
+			// the store is gone: the presence check fails with the store's own error (its chain is read from the real error)
+			op["perr"] = c14Chain(perr)
+			done, err := p2.handlePrivateTxRetry(ctx, ev)
+			emit(op, done, err)
+			continue
+		}
+		done, err := p.handlePrivateTxRetry(ctx, ev)
+		emit(op, done, err)
+	}
+	_ = db.Close(ctx)
+	if err := os.WriteFile(filepath.Join(outDir, "ops.jsonl"), []byte(strings.Join(ops, "\n")+"\n"), 0o644); err != nil {
+		t.Fatal(err)
+	}
+	if err := os.WriteFile(filepath.Join(outDir, "impl.out"), []byte(strings.Join(lines, "\n")+"\n"), 0o644); err != nil {
 		t.Fatal(err)
 	}
 }
